@@ -15,8 +15,11 @@
   complete recalculation of the inverted document — lines, document discounts
   and charges, the tax summary with included-tax removal, every total, the
   advances and the presentation rounding — is the negated result.
+  Order (Proofs/CalcPerm.lean, CalcGroups.lean, CalcPermTax.lean): document
+  sums and every tax group's base, amount and surcharge (as amounts: value and
+  precision) are independent of the order of the rows.
   Not proved (metamorphic checks on the real code only): order independence
-  of the order of groups inside the tax summary and `remove_included_payable`.
+  of the category and tax totals as whole sums, and `remove_included_payable`.
 -/
 import GoblVerif.Spec.C17
 import GoblVerif.Generated.CalcFacts
@@ -24,6 +27,7 @@ import GoblVerif.Proofs.CalcNeg
 import GoblVerif.Proofs.CalcPerm
 import GoblVerif.Proofs.CalcInvert
 import GoblVerif.Proofs.CalcGroups
+import GoblVerif.Proofs.CalcPermTax
 
 namespace GoblVerif.Props.C17
 open GoblVerif GoblVerif.Calc
@@ -125,6 +129,28 @@ theorem group_base_perm_invariant (r : Rule) (c : ℕ) (cat : String) (k : Key) 
     (h : rows.Perm rows') :
     catGroupBase cat k (baseRateTotals exactOps r c rows) = catGroupBase cat k (baseRateTotals exactOps r c rows') :=
   baseRateTotals_group_perm r c cat k rows rows' h
+
+/-- **Reordering rows changes no tax group figure.**  For any permutation of the taxable rows and any
+category and group key, the group the summary holds for that key has the same base, amount and
+surcharge amount — equal as amounts, value and number of decimals — and it exists for one order
+exactly when it exists for the other (only the position of the groups in the list may differ). -/
+theorem group_figures_perm_invariant (r : Rule) (c : ℕ) (cat : String) (k : Key) (rows rows' : List Row)
+    (h : rows.Perm rows') :
+    (findGroup cat k ((baseRateTotals exactOps r c rows).map (catAmounts exactOps r c))).map groupView =
+      (findGroup cat k ((baseRateTotals exactOps r c rows').map (catAmounts exactOps r c))).map groupView :=
+  group_view_perm r c cat k rows rows' h
+
+/-- non-vacuity: two rows at 21 % and one at 10 %; putting the 10 % row first swaps the two groups and
+changes none of their figures (21 %: base 300.0000, amount 63.0000; 10 %: base 50.00, amount 5.00) -/
+example :
+    let vat (p : ℤ) : Combo := { cat := "VAT", country := "", key := "", percent := some ⟨⟨p, 2⟩⟩, surcharge := none, ext := "", retained := false }
+    let rows : List Row := [⟨⟨10000, 2⟩, [vat 21]⟩, ⟨⟨5000, 2⟩, [vat 10]⟩, ⟨⟨2000000, 4⟩, [vat 21]⟩]
+    ((baseRateTotals exactOps .precise 2 rows).map (catAmounts exactOps .precise 2)).map (fun ct => ct.rates.map groupView)
+      = [[(⟨3000000, 4⟩, ⟨630000, 4⟩, none), (⟨5000, 2⟩, ⟨500, 2⟩, none)]] ∧
+    let rows' : List Row := [⟨⟨5000, 2⟩, [vat 10]⟩, ⟨⟨2000000, 4⟩, [vat 21]⟩, ⟨⟨10000, 2⟩, [vat 21]⟩]
+    ((baseRateTotals exactOps .precise 2 rows').map (catAmounts exactOps .precise 2)).map (fun ct => ct.rates.map groupView)
+      = [[(⟨5000, 2⟩, ⟨500, 2⟩, none), (⟨3000000, 4⟩, ⟨630000, 4⟩, none)]] := by
+  decide
 
 /-! ## the whole document under `Invert` -/
 
